@@ -133,12 +133,19 @@ def run (sc : Script) : List String := Id.run do
   let mut c : QCfg := { ordered := sc.ordered, nkeys := sc.nkeys }
   let mut out : List String := []
   let mut idx := 0
+  -- `queueNotifyCounter` of the current queue object: number of live DisableQueueNotify objects made for it
+  let mut nc := 0
   for cmd in sc.dos do
     let metaKind := (sc.metas.find? (fun p => p.1 == idx)).map (·.2)
     idx := idx + 1
     match metaKind with
     | some kind =>
-      c := if kind == "copy" then c.copyOf else c.moveOf
+      if kind == "dqnb" then nc := nc + 1
+      else if kind == "dqne" then nc := nc - 1
+      else
+        -- a copied / moved-to queue is a new object: nobody disabled ITS notifications (C10_counters_zero)
+        c := if kind == "copy" then c.copyOf else c.moveOf
+        nc := 0
       out := out ++ ["ev res unit"]
     | none =>
       let before := c.trace.length
@@ -152,7 +159,7 @@ def run (sc : Script) : List String := Id.run do
       | none => "<empty-slot>")
     out := out ++ [("q : " ++ " ".intercalate qs).trimAsciiEnd.toString]
     let bad := c.queue.any (fun s => s.ev.isNone) || c.free.any (fun s => s.ev.isSome)
-    out := out ++ [s!"slots {c.queue.length} {c.free.length} {c.ec}" ++ (if bad then " slotbad" else "")]
+    out := out ++ [s!"slots {c.queue.length} {c.free.length} {c.ec} {nc}" ++ (if bad then " slotbad" else "")]
     for k in List.range sc.nkeys do
       out := out ++ [(s!"lst {k} : " ++ showEntries ((c.lists k).map (fun e => (e.id, e.cb)))).trimAsciiEnd.toString]
     out := out ++ [("flt : " ++ showEntries (c.filters.map (fun e => (e.id, e.cb)))).trimAsciiEnd.toString]
@@ -174,6 +181,8 @@ def addLine (sc : Script) (line : String) : Script :=
               conds := sc.conds ++ condsOf (splitSemi rest) }
   | ["do", "qcopy", _] => { sc with metas := sc.metas ++ [(sc.dos.length, "copy")], dos := sc.dos ++ [.emptyq] }
   | ["do", "qmove", _] => { sc with metas := sc.metas ++ [(sc.dos.length, "move")], dos := sc.dos ++ [.emptyq] }
+  | ["do", "dqnb"] => { sc with metas := sc.metas ++ [(sc.dos.length, "dqnb")], dos := sc.dos ++ [.emptyq] }
+  | ["do", "dqne"] => { sc with metas := sc.metas ++ [(sc.dos.length, "dqne")], dos := sc.dos ++ [.emptyq] }
   | "do" :: rest =>
     match parseCmd rest with
     | some c => { sc with dos := sc.dos ++ [c], conds := sc.conds ++ condsOf [rest] }
